@@ -42,6 +42,8 @@ def run(F, chk):
     check_string_sanitised(F, D3)
     D4 = chk.rule('D4', 'encoder: every value narrowed into / added within the 16-bit length prefix has an upper bound <= 65535 from the dominating guards')
     check_length_prefix(F, D4)
+    D5 = chk.rule('D5', 'the argument renderer never casts a float to an integer (floats are rendered by the float formatter)')
+    check_float_rendering(F, D5)
 
 
 def vars_of(e):
@@ -566,3 +568,37 @@ def _lin_const_idx(hi):
     if show(hi[3]) == '(*self).index':
         return _lin_const(hi[2])
     return None
+
+
+# ---------------------------------------------------------------------------------------------
+# D5: floats are rendered as floats
+
+def check_float_rendering(F, D5):
+    """The text form of a FLOA argument comes from the float formatter applied to the decoded value.  A detour through an
+    integer (`val as i64`) loses -0.0, NaN, the infinities and everything beyond the integer range, so the argument
+    renderer contains no float-to-integer cast at all (expected count: zero; the self-test corpus holds a variant that
+    must fire)."""
+    b = F.get('adlt::dlt::DltMessage::process_msg_arg_iter')
+    if b is None:
+        D5.violation(('anchor-lost', 'process_msg_arg_iter'), 'argument renderer not found')
+        return
+    D5.fn(b.path)
+    bodies = [b] + list(F.closures_of(b.path))
+    nfloat = 0
+    bad = []
+    for x in bodies:
+        for blk in x.blocks:
+            if blk.cleanup:
+                continue
+            for s in blk.stmts:
+                if s.k == 'assign' and s.rv['k'] == 'cast' and s.rv.get('ck') == 'FloatToInt':
+                    bad.append((x, s))
+            if blk.term.k == 'call' and re.search(r'<impl f(32|64)>::from_(be|le|ne)_bytes$', blk.term.callee.path):
+                nfloat += 1
+    D5.sites += nfloat + len(bad)
+    D5.floor('float decode sites (f32/f64::from_*_bytes) in the argument renderer', nfloat, 2)
+    if bad:
+        x, s = bad[0]
+        D5.violation(('float-rendered-through-integer', b.path), 'the argument renderer casts a float to an integer at %s (%d site(s)): -0.0, NaN, infinities and large values lose their text form' % (x.loc(s.sp), len(bad)), where=x.loc(s.sp))
+    else:
+        D5.ok(sample={'float_decode_sites': nfloat, 'float_to_int_casts': 0})
